@@ -31,4 +31,24 @@ CHECKS = {
   "ref": "DESIGN.md 5.4, 6 C18",
   "note": TB + "Attribution of a w-mer to a particular run is not constrained by the property; the model transcribes the code's attribution and the conformance check therefore also pins it.",
   "technique": "TLC exhaustive model checking with implementation table (B1) + TLC trace validation with internal state (B2)"},
+ "C04": {
+  "text": "TLC explores the OligoVec specification (accumulator over the k-mer iterator, column = rank of the canonical k-mer) over every string of {A,C,G,T/U,other} up to length 6 (quick) / 7-8 (thorough) for k=1..3, checking in every state that the vector is the declarative count of canonical windows, totals, reverse-complement invariance and that every index stays in range; every one of those strings is also a record of a FASTA file run through the real OligoComputer file API (counts via the batch writer, normalised via the memory-mapped and the batch writer) and TLC requires each output row to equal the model's (normalised digits by the scaled-integer inequality |v6*total - count*10^6| <= total/2). Random records with RC / case / T<->U variants for k=1..8 through the library, the CLI (k=3..7) and the Python binding are judged row by row by the specification's declarative Count (FactsTrace).",
+  "ref": "DESIGN.md 5.5, 6 C04",
+  "note": TB + "Row text is decoded to integers by the harness (sparse_row). Records are limited to 600 bases in TLC-validated traces (32-bit products).",
+  "technique": "TLC exhaustive model checking with implementation table through the file API (B1) + TLC-judged per-record facts (B2/B4)"},
+ "C11": {
+  "text": "The Cgr specification models the midpoint rule on dyadic bit paths (a coordinate is the sequence of corner bits of the bases read so far, newest first); TLC explores every string of {A,C,G,T/U,other} up to length 7/8, checks prefix determinism, sub-square containment and rejection iff a non-nucleotide byte occurs, and requires the exact integer numerator of every coordinate returned by the real vectorise_one (three square sizes) to equal the model's (B1). Random sequences up to thousands of bases (exact numerators for the first 29 points, top-20-bit containment beyond), six square sizes, the file path with 1..16 threads and batch limits {1,64,4GiB}, and the CLI including refusal of a record with a bad byte are judged by FactsTrace.",
+  "ref": "DESIGN.md 5.5, 6 C11",
+  "note": TB + "Numeric property: the model decides the discrete skeleton (corner, order, halving); exactness of the f64 arithmetic is established by the decoder's exact-integer check (harness code, trusted).",
+  "technique": "TLC exhaustive model checking with implementation table (B1) + TLC-judged per-record facts (B2/B4)"},
+ "C12": {
+  "text": "Every string up to length 5-7 for k=1..3 is run as one record through the real OligoCgrComputer file API (raw and normalised, small batch limit); TLC checks the frequencies against the OligoVec model in every state and the harness reports any row whose coordinates are not bit-identical to the first row's. For random records, k=1..7, sizes {1,k^2,16,2^20}, 1..16 threads, and through the CLI (incl. default -v = k^2), TLC checks that every column's (x,y) numerators are the chaos-game end point of that column's canonical k-mer text and that each row's frequencies are the declarative counts (raw or correct to 6 decimals).",
+  "ref": "DESIGN.md 5.5, 6 C12",
+  "note": TB + "Triples are decoded by the harness; frequencies are compared to 6 decimals (any wrong count differs by at least 1/total).",
+  "technique": "TLC exhaustive model checking with implementation table through the file API (B1) + TLC-judged per-record facts (B2/B4)"},
+ "C13": {
+  "text": "The Python module built from the working tree is driven by py/driver.py, which emits the same event formats as the Rust harness; the same TLA+ trace specifications that bind the Rust core (KmerIterTrace, MinimiserTrace, FactsTrace) validate the binding's k-mer iterator, minimiser iterator, to_acgt, oligo vectors (raw and normalised), header, CGR (incl. ValueError) and batch calls of sizes 0..5000 element by element in argument order, on ASCII, mixed-case and arbitrary unicode strings; iterators are built from released temporaries with allocator churn between next() calls; an interpreter crash is a violation.",
+  "ref": "DESIGN.md 6 C13",
+  "note": TB + "The lifetime clause is exercised behaviourally, not proved (a dangling read of intact memory is invisible).",
+  "technique": "TLC trace validation of the Python binding against the same specifications as the Rust core (B2)"},
 }
